@@ -63,6 +63,15 @@ def gen_triple(rng, tier="quick"):
         if d["acl"] or rng.random() < 0.2:
             e["memoryAccess"] = list(d["acl"])
         us.append(e)
+    if rng.random() < 0.12 and units:
+        # an unusual but csv-safe unit name (format / template metacharacters, inner blanks)
+        victim = rng.choice(sorted(units))
+        newname = rng.choice(["{{fetch}}", "{}", "{0}", "%s", "$unit", "ex{int}", "a b", "u:1"])
+        if newname.lower() not in {d["name"].lower() for d in units.values()}:
+            for e in us:
+                if e["name"] == units[victim]["name"]:
+                    e["name"] = newname
+            units[victim]["name"] = newname
     rng.shuffle(us)
     es = [[units[a]["name"], units[b]["name"]] for a, b in sorted(edges)]
     rng.shuffle(es)
@@ -120,6 +129,45 @@ def twin_of(rng, x):
     return y
 
 
+# letters with a case variant that `str.lower` identifies but that is NOT obtained by ASCII folding (and, for some, not by
+# `str.upper` either): the code defines "same name" through `str.lower`
+NONASCII_VARIANTS = {"\u00df": "\u1e9e", "\u1e9e": "\u00df", "k": "\u212a", "\u212a": "k", "\u03c9": "\u2126", "\u2126": "\u03c9",
+                     "\u00e5": "\u212b", "\u212b": "\u00e5", "\u00e9": "\u00c9", "\u00c9": "\u00e9"}
+
+
+def non_ascii(x) -> bool:
+    return any(ord(ch) > 127 for ch in json.dumps(x, ensure_ascii=False))
+
+
+def to_non_ascii(rng, x):
+    """rename units / capabilities / registers consistently so that they contain letters from NONASCII_VARIANTS"""
+    y = copy.deepcopy(x)
+    suffix = rng.choice(["\u00df", "\u03c9", "\u00e9", "k\u00e5"])
+    ren = {}
+
+    def r(s):
+        if s not in ren:
+            ren[s] = s + suffix
+        return ren[s]
+
+    for u in y["desc"]["units"]:
+        u["name"] = r(u["name"])
+        u["capabilities"] = [r(c) for c in u["capabilities"]]
+        if "memoryAccess" in u:
+            u["memoryAccess"] = [r(c) for c in u["memoryAccess"]]
+    y["desc"]["dataPath"] = [[r(n) for n in e] for e in y["desc"]["dataPath"]]
+    y["isa"] = [[m, r(c)] for m, c in y["isa"]]
+    lines = []
+    for ln in y["lines"]:
+        if not ln.strip():
+            lines.append(ln)
+            continue
+        m, rest = ln.split(" ", 1)
+        lines.append(m + " " + ", ".join(op + suffix for op in rest.split(", ")))
+    y["lines"] = lines
+    return y
+
+
 def recase(rng, x):
     """re-case only NON-defining occurrences; returns (x', number of occurrences whose text changed)"""
     y = copy.deepcopy(x)
@@ -128,6 +176,12 @@ def recase(rng, x):
     def rc(s):
         nonlocal changed
         t = swap(rng, s) if rng.random() < 0.7 else s
+        if any(ord(ch) > 127 for ch in s):
+            # ASCII letters: keep or swap case; special letters: their `str.lower`-equivalent variant
+            t = "".join((NONASCII_VARIANTS.get(ch, ch) if rng.random() < 0.7 else ch) if ch in NONASCII_VARIANTS and ord(ch) > 127
+                        else ch for ch in s)
+            if t.lower() != s.lower():
+                t = s
         if t != s:
             changed += 1
         return t
@@ -217,6 +271,20 @@ def pipeline(x, upto="sim"):
         res["prog"] = err_form(e)
         return res
     res["prog"] = comp_sim.prog_json(comp)
+    # instructions built DIRECTLY (no parser in front normalising the spelling): sources that differ only in case
+    try:
+        from program_defs import ProgInstruction
+        direct = [ProgInstruction(["R1", "r1", "Acc", "ACC", "acc"], "R1", i.name, i.line) for i in prog[:2]]
+        res["direct"] = comp_sim.prog_json(program_utils.compile_program(direct, isa))
+        # registers need not be plain strings: case-insensitive string objects in this triple's own spelling
+        from str_utils import ICaseString
+        if prog:
+            regs = sorted({prog[0].destination, *prog[0].sources})
+            obj = [ProgInstruction([ICaseString(r) for r in regs], ICaseString(regs[0]), prog[0].name, prog[0].line)]
+            res["direct_obj"] = [[[str(x) for x in i.sources], str(i.destination), i.categ]
+                                 for i in program_utils.compile_program(obj, isa)]
+    except Exception as e:  # noqa: BLE001
+        res["direct"] = err_form(e)
     if upto == "compile":
         return res
     impl = comp_sim.run_impl(proc, comp)
@@ -284,7 +352,7 @@ def worker_main():
 
 
 def c20_view(r):
-    v = {k: r.get(k) for k in ("proc", "isa", "parsed", "prog")}
+    v = {k: r.get(k) for k in ("proc", "isa", "parsed", "prog", "direct", "direct_obj")}
     s = r.get("sim")
     v["sim"] = s if s is None or "table" in s else {"outcome": s["outcome"]}
     # error CLASS only
@@ -326,6 +394,8 @@ def model_pipeline(x, proc_exact=None):
 
 def model_agrees(model, real):
     """compare the composed model's stage results with the implementation's (same canonical forms)"""
+    if model == "non-ascii":
+        return True, "non-ASCII names: outside the (ASCII-folding) model, metamorphic oracle only"
     if model is None:
         return True, "model pipeline op not available"
     for k in ("proc", "isa", "prog"):
@@ -363,7 +433,7 @@ def evaluate(x, do_cli=True) -> dict:
     args_unchanged = (x == x0)
     accepted = not (isinstance(base.get("proc"), dict))
     n = len(base["prog"]) if isinstance(base.get("prog"), list) else 0
-    model = model_pipeline(x, base.get("proc_exact"))
+    model = "non-ascii" if non_ascii(x) else model_pipeline(x, base.get("proc_exact"))
     k_ok, k_why = model_agrees(model, base)
 
     # ---- C13
@@ -382,6 +452,7 @@ def evaluate(x, do_cli=True) -> dict:
     completes = bool(sim) and sim.get("outcome") == "done"
     o16, k16 = None, k_ok
     cli = None
+    do_cli = do_cli and not non_ascii(x)
     if completes and do_cli:
         cli = run_cli(x)
         exp = expected_rows(sim, n)
@@ -389,7 +460,7 @@ def evaluate(x, do_cli=True) -> dict:
             o16 = f"the command line failed (exit {cli['rc']}) although the library simulation completes: {cli['stderr'][-200:]}"
         elif cli["rows"] != exp:
             o16 = "printed table differs from the diagram computed through the library"
-        if model is not None and model.get("rows") is not None and cli["rows"] is not None and model["rows"] != cli["rows"]:
+        if isinstance(model, dict) and model.get("rows") is not None and cli["rows"] is not None and model["rows"] != cli["rows"]:
             k16 = False
     props["C16"] = {"app": completes and do_cli, "nontrivial": completes and n >= 2 and len(sim["table"]) >= 3 if completes else False,
                     "k": k16, "o": o16}
@@ -430,6 +501,8 @@ def run_case(case, tier="quick") -> dict:
         fam = rng.choice(["random", "partial", "layered", "deadbranch", "forkjoin", "random"])
         desc, _ = comp_loader.gen_desc(rng, fam)
         xs[3] = {"desc": desc, "isa": [], "lines": []}
+    if rng.random() < 0.3:
+        xs[2] = to_non_ascii(rng, xs[2])     # metamorphic C13 oracle beyond ASCII (the model is skipped for it)
     for i, x in enumerate(xs):
         x["seed"] = f"{core.base_seed()}:{case}:{i}"
     # the CLI subprocess is slow: one per batch in the quick tier, all in the thorough tier
